@@ -269,20 +269,33 @@ def d3(cx: Cx, ob: Ob) -> None:
             ob.violate(m.qualname, m.where, f"validator of `{f}` never raises", detail=f"never-raises:{f}")
             continue
         good = False
+        mentions = False
         for t, ctx in raises:
             for g in ctx.guards:
                 if g.kind != "guard" or g.b is not True:
                     continue
                 c = g.a
+                needle = None
                 if op(c) == "cmp" and c[1] == "in" and c[3] == v:
+                    needle = c[2]
+                elif op(c) == "call" and callee_name(c) == "any" and c[2] and op(c[2][0]) == "comp" and len(c[2][0][3]) == 1 and c[2][0][3][0][1] == v:
+                    comp = c[2][0]
+                    tgt, elt = comp[3][0][0], comp[2]
+                    if op(elt) == "cmp" and elt[1] == "==" and tgt in (elt[2], elt[3]):
+                        needle = elt[3] if elt[2] == tgt else elt[2]
+                if any(x == v for x in subterms(c)):
+                    mentions = True
+                if needle is not None:
                     # what is tested for membership: the canonical value read from the validation info
-                    keys = [x[1] for x in subterms(c[2]) if is_const(x) and isinstance(x[1], str)]
+                    keys = [x[1] for x in subterms(needle) if is_const(x) and isinstance(x[1], str)]
                     if canon in keys:
                         good = True
                     elif keys:
                         ob.violate(m.qualname, where(m, g.line), f"validator of `{f}` checks membership of `{keys[0]}` instead of `{canon}`", detail=f"wrong-canonical:{f}")
                         good = True
-        if not good:
+        if not good and mentions:
+            ob.undecide(f"validator of `{f}`: membership test not recognised")
+        elif not good:
             ob.violate(m.qualname, m.where, f"validator of `{f}` does not raise when `{canon}` is a member of the list", detail=f"no-membership-test:{f}")
         for t, ctx in s.returns():
             if t != v and not is_const(t, None):
